@@ -8,7 +8,7 @@ for f in "$@"; do
   elif [ ! -e /verif/lean/$f ]; then mkdir -p $(dirname /verif/lean/$f); cp $src/$f /verif/lean/$f; echo "new   $f";
   elif cmp -s $src/$f /verif/lean/$f; then echo "same  $f";
   else
-    base=/var/tmp/mergebase/lean/$f; [ -e $base ] || base=/dev/null
+    base=${MERGEBASE:-/var/tmp/mergebase}/lean/$f; [ -e $base ] || base=/dev/null
     if git merge-file -q /verif/lean/$f $base $src/$f; then echo "merged $f"; else echo "CONFLICT $f"; fi
   fi
 done
